@@ -686,7 +686,7 @@ Print Assumptions C05_source_facts.
 (* the size guards of the model are the conditions of the Go `if` statements themselves
    (LimitedStorage.Push: expected.Size > ls.PushLimit; ReadAll and NewVerifyReader:
    desc.Size < 0; VerifyReader.Verify: vr.base.N > 0), translated into Gallina by the
-   translator on every run (c05_g_*) *)
+   translator on every run (the c05_g_ functions) *)
 Theorem C05_source_guards :
   forall (H : str -> str -> str) comb,
   (forall St (push : St -> desc -> base -> option rerr * St) limit st d evs,
